@@ -236,10 +236,17 @@ fn build_intent<'b, 'r, 'c, 's:'c, 'm:'c>(rules_with_context: &'r mut SpeechRule
                 intent.set_attribute_value(INTENT_PROPERTY, &properties);
             } else {
                 let saved_intent = mathml.attribute_value(INTENT_ATTR).unwrap();
+                let saved_property = mathml.attribute_value(INTENT_PROPERTY);
                 mathml.remove_attribute(INTENT_ATTR);
                 mathml.set_attribute_value(INTENT_PROPERTY, &properties);   // needs to be set before the pattern match
-                intent = rules_with_context.match_pattern::<Element<'m>>(mathml)?;
+                let match_result = rules_with_context.match_pattern::<Element<'m>>(mathml);
+                // put the element back as it was (also when the match failed) -- it is part of the stored expression
+                match saved_property {
+                    None => mathml.remove_attribute(INTENT_PROPERTY),
+                    Some(value) => {mathml.set_attribute_value(INTENT_PROPERTY, value);},
+                }
                 mathml.set_attribute_value(INTENT_ATTR, saved_intent);
+                intent = match_result?;
             }
             return Ok(intent);      // if we start with properties, then there can only be properties
         },
